@@ -24,6 +24,8 @@ def run_property(prop: str, tier: str, selftest: bool = True) -> int:
         ctx = Ctx()
         mod = importlib.import_module("rules.%s" % prop)
         mod.run(ctx, rep, tier)
+        from . import darule
+        darule.apply(ctx, rep)
         rep.extra["analysed"] = {
             "repo": REPO,
             "modules": len(ctx.prog.modules),
